@@ -231,6 +231,14 @@ func ruleC08(c *Check, p *Prog) {
 		checkRace(c, p, ref.Name, d)
 		checkTokenBarrier(c, p, ref.Name, d, ref.S)
 		checkDoneOnce(c, p, "R-BARRIER", ref.Name+"/done-once", d)
+		checkWorkers(c, p, "R-WORKERS", ref.Name, d)
+		// the sequential verdict is only reproduced if every sample is one consecutive chunk of the stream (shared with C10)
+		if d.Read != nil {
+			held := lockRegions(d, d.Worker)
+			c.Expect(held(d.Read), "R-SERIAL", ref.Name, wherePos(p, d.Read),
+				"the worker's read of the shared source runs under one mutex shared by all workers: each job's sample is one whole consecutive chunk",
+				"the worker's read of the shared source is not inside a critical section of a mutex shared by all workers: partial reads interleave and samples differ from the sequential ones")
+		}
 	}
 	checkTQCommute(c, p, "R-ORDER-INDEP")
 }
@@ -402,6 +410,10 @@ func checkTokenBarrier(c *Check, p *Prog, name string, d *wfDesc, s int64) {
 	if addOK {
 		v, ok := intOf(adds[0].Args[1])
 		addOK = ok && v == s && send != nil && adds[0].Seq < send.Seq
+	} else if len(adds) == 1 && send != nil && adds[0].Loop == send.Loop && adds[0].Loop != nil && len(adds[0].Args) == 2 && adds[0].Args[0] == d.Wait {
+		// equivalent form: wg.Add(1) in every dispatch iteration before the send
+		v, ok := intOf(adds[0].Args[1])
+		addOK = ok && v == 1 && adds[0].Seq < send.Seq && S.Equivalent(adds[0].Guard, send.Guard)
 	}
 	c.Expect(addOK, "R-BARRIER", name+"/add", where, fmt.Sprintf("wg.Add(%d) executes once before the first token is sent", s), "wg.Add(k) with k = number of jobs does not precede dispatch")
 	var late []string
@@ -498,4 +510,57 @@ func checkDoneOnce(c *Check, p *Prog, rule, key string, d *wfDesc) {
 	}
 	c.Expect(cover && excl && !nested && len(escapes) == 0, rule, key, where,
 		fmt.Sprintf("wg.Done() is called exactly once on every path through one job iteration (%d call sites with exclusive, exhaustive guards)", len(dones)), detail)
+}
+
+// checkWorkers: at least one worker is started on every machine (otherwise the first send blocks forever).
+func checkWorkers(c *Check, p *Prog, rule, name string, d *wfDesc) {
+	checkWorkersAt(c, p, rule, name, d.X.S, d.GoEv)
+}
+
+func checkWorkersAt(c *Check, p *Prog, rule, name string, S *Store, goEv *Event) {
+	d := struct{ GoEv *Event }{goEv}
+	l := d.GoEv.Loop
+	where := wherePos(p, d.GoEv)
+	if l == nil {
+		// a single unconditional `go worker` is also fine
+		c.Expect(d.GoEv.Guard == S.True, rule, name, where, "one worker is started unconditionally", "the worker start is conditional")
+		return
+	}
+	okk := false
+	detail := "the worker-spawning loop is not `for i := 0; i < B; i++ { go worker(...) }`"
+	if len(l.Exits) == 1 && l.Parent == nil && S.Equivalent(d.GoEv.Guard, S.Not(l.Exits[0].Guard)) {
+		// exit guard: B - i <= 0
+		g := l.Exits[0].Guard
+		if g.Op == "le0" {
+			as, cs, off := linParts(g.Args[0])
+			var iterCoef int64
+			rest := S.linMake(nil, nil, off)
+			for i, a := range as {
+				if a == iterTerm(S, l) {
+					iterCoef = cs[i].Int64()
+				} else {
+					rest = S.Add(rest, S.MulC(a, cs[i]))
+				}
+			}
+			if iterCoef == -1 {
+				detail = fmt.Sprintf("the number of workers %v is not guaranteed to be at least 1", rest)
+				if v, ok := rest.IntVal(); ok && v >= 1 {
+					okk = true
+				}
+				ras, rcs, roff := linParts(rest)
+				if len(ras) == 1 && rcs[0].Int64() >= 1 && roff.Sign() >= 0 && ras[0].K == KSym && ras[0].Sym.Ev != nil &&
+					(ras[0].Sym.Ev.Callee == "runtime.NumCPU" || ras[0].Sym.Ev.Callee == "runtime.GOMAXPROCS") {
+					okk = true // both are documented to be >= 1
+				}
+				if rest.Op == "call:builtin.max" {
+					for _, a := range rest.Args {
+						if v, ok := a.IntVal(); ok && v >= 1 {
+							okk = true
+						}
+					}
+				}
+			}
+		}
+	}
+	c.Expect(okk, rule, name, where, "at least one worker goroutine is started (runtime.NumCPU() / GOMAXPROCS(0) >= 1, or a constant >= 1)", detail+": with zero workers the first `jobs <- i` blocks forever")
 }
